@@ -328,3 +328,84 @@ theorem jsonpath_roundtrip {σ : Type} (cb : σ → CbArg → Option σ) (s t : 
     exact traverse_keyTexts cb p s t st hwf hsm ht
 
 end MiniconfVerif
+
+namespace MiniconfVerif
+open MiniconfVerif.PathIter
+set_option autoImplicit false
+
+theorem ofList_size : ∀ (l : List Char), (String.ofList l).utf8ByteSize = byteLen l
+  | [] => by simp [byteLen]
+  | c :: l => by
+    have : c :: l = [c] ++ l := rfl
+    rw [this, String.ofList_append, String.utf8ByteSize_append, ofList_size l]
+    have h1 : (String.ofList [c]).utf8ByteSize = c.utf8Size := by
+      have : String.ofList [c] = String.singleton c := by rfl
+      rw [this, String.utf8ByteSize_singleton]
+    rw [h1]; simp [byteLen]
+
+theorem string_size_eq (n : String) : n.utf8ByteSize = byteLen n.toList := by
+  rw [← ofList_size, String.ofList_toList]
+
+theorem digitChar_size : ∀ (d : Nat), d < 10 → (digitChar d).utf8Size = 1
+  | 0, _ => by decide
+  | 1, _ => by decide
+  | 2, _ => by decide
+  | 3, _ => by decide
+  | 4, _ => by decide
+  | 5, _ => by decide
+  | 6, _ => by decide
+  | 7, _ => by decide
+  | 8, _ => by decide
+  | 9, _ => by decide
+  | n + 10, h => by omega
+
+theorem byteLen_itoa : ∀ (n : Nat), byteLen (itoa n) = digits n := by
+  intro n
+  induction n using Nat.strongRecOn with
+  | _ n ih =>
+    rw [itoa_eq, digits_eq]
+    split
+    · next h => simp [byteLen, digitChar_size n h]
+    · next h =>
+      rw [byteLen_append, ih (n / 10) (by omega)]
+      simp [byteLen, digitChar_size (n % 10) (by omega)]; omega
+
+/-- the byte length of the key text at a level is the length weight of that level -/
+theorem byteLen_keyText (t c : Schema) (hwf : t.WF) (i : Nat) (hk : t.kids[i]? = some c) :
+    byteLen (t.keyText i) = t.levelW Wlen i := by
+  obtain ⟨_, hi⟩ := kid_facts t c i hk
+  cases t with
+  | leaf => simp [Schema.kids] at hk
+  | node lk cs =>
+    obtain ⟨hlen, _, hnd, _⟩ := hwf
+    cases lk with
+    | named ns =>
+      have hi' : i < ns.length := by simpa [Schema.arity, Schema.kids, hlen, Lookup.len] using hi
+      have hn : ns[i]? = some ns[i] := by simp [hi']
+      simp [Schema.keyText, Schema.cbArg, Lookup.name?, Schema.levelW, Wlen, Lookup.keyLen, hn, string_size_eq]
+    | numbered n => simp [Schema.keyText, Schema.cbArg, Lookup.name?, Schema.levelW, Wlen, Lookup.keyLen, byteLen_itoa]
+    | homog n => exact absurd hnd (by simp)
+  | array n c' => simp [Schema.keyText, Schema.cbArg, Schema.levelW, Wlen, byteLen_itoa]
+
+/-- the rendered path of a node path has one separator per level plus the path's length weight -/
+theorem byteLen_renderPath (S : Char) : ∀ (p : List Nat) (s t : Schema), s.WF → s.at? p = some t →
+    byteLen (renderPath S (keyTexts s p)) = p.length * S.utf8Size + pathW Wlen s p := by
+  intro p
+  induction p with
+  | nil => intro s t _ _; simp [renderPath, keyTexts, pathW, byteLen]
+  | cons i p ih =>
+    intro s t hwf ht
+    rw [at?_cons] at ht
+    cases hk : s.kids[i]? with
+    | none => simp [hk] at ht
+    | some c =>
+      simp only [hk] at ht
+      have hrec := ih c t (wf_kids s hwf c (List.mem_of_getElem? hk)) ht
+      have hkt := byteLen_keyText s c hwf i hk
+      have e : renderPath S (keyTexts s (i :: p)) = S :: (s.keyText i ++ renderPath S (keyTexts c p)) := by
+        simp [renderPath, keyTexts, hk]
+      rw [e, byteLen_cons, byteLen_append, hrec, hkt]
+      simp only [pathW, hk, List.length_cons, Nat.add_mul, Nat.one_mul]
+      omega
+
+end MiniconfVerif
